@@ -369,6 +369,7 @@ package httpgrpc
 //@   requires respCh != nil && !closed(respCh)
 //@   sole_closer respCh
 //@   ensures[C05] completion_is_signalled_exactly_once: closed(respCh)
+//@   assert_call[C02,C01] io.ReadCloser.Close : the_read_outcome_is_left_in_the_callers_variables: b$captured == lastresult("ioutil.ReadAll", 0) && err$captured == lastresult("ioutil.ReadAll", 1)
 //@   ensures[C05,C01] reads_the_whole_reply_body_once_and_closes_it: calls("ioutil.ReadAll") == 1 && calls("io.ReadCloser.Close") == 1
 //@   assert_call[C01] ioutil.ReadAll : of_the_reply_body: arg0 == reply.Body
 //@   assert_call[C05] io.ReadCloser.Close : the_reply_body_after_reading: arg0 == reply.Body && called("ioutil.ReadAll")
